@@ -242,8 +242,27 @@ func c16TempDir() string {
 }
 
 // c16Serve pushes one request through the real handler sharing `in`.
+// c16Writer: writing the status line and writing the body are scheduling points too - a handler
+// may be overtaken by another request between the end of its execution and the rendering of what
+// it answers (an error report is rendered after the status line has been written)
+type c16Writer struct{ *httptest.ResponseRecorder }
+
+func (w c16Writer) WriteHeader(code int) {
+	if exec.VerifYield != nil {
+		exec.VerifYield("write-header")
+	}
+	w.ResponseRecorder.WriteHeader(code)
+}
+
+func (w c16Writer) Write(b []byte) (int, error) {
+	if exec.VerifYield != nil {
+		exec.VerifYield("write-body")
+	}
+	return w.ResponseRecorder.Write(b)
+}
+
 func c16Serve(in *exec.Interpreter, rq c16Req) string {
-	w := httptest.NewRecorder()
+	w := c16Writer{httptest.NewRecorder()}
 	switch rq.Handler {
 	case "playground":
 		body, _ := json.Marshal(map[string]string{"SourceCode": rq.Source, "VarInput": rq.VarIn})
